@@ -49,8 +49,18 @@ def c04(tier, seed):
         assumptions=sys_assumptions, bounds=BOUNDS)
 
 
+def with_sequences(files, tier, seed):
+    """adds seeded A;B;A sequences of complete API calls over shapes sharing locks"""
+    from harness import props
+    text, names = props.gen_seq(tier, seed, 48 if tier == "quick" else 240)
+    files = dict(files)
+    files["h_seq.rs"] = text
+    return files
+
+
 def c05(tier, seed):
     files, names = harness_acq(tier, envs=("a",))
+    files = with_sequences(files, tier, seed)
     return checks.run_mirsym_property(
         "C05", tier, seed, files, codes("M_BAD_RELEASE", "M_HELD_AFTER_ERR", "M_SELF_WAIT"),
         assumptions=sys_assumptions, bounds=BOUNDS)
@@ -58,6 +68,7 @@ def c05(tier, seed):
 
 def c03(tier, seed):
     files, names = harness_acq(tier, envs=("a",))
+    files = with_sequences(files, tier, seed)
     return checks.run_mirsym_property(
         "C03", tier, seed, files, codes("M_HELD_AT_API_BEGIN", "M_HELD_AT_KEY_BACK", "M_SELF_WAIT", "M_KEY_MODEL"),
         assumptions=sys_assumptions, bounds=BOUNDS)
